@@ -18,7 +18,7 @@ for f in fam/*/; do
   if [ -f "tools/extract_$name.py" ]; then python3 tools/extract.py --repo "$REPO" --family "$name" || echo "WARN: translator of family $name failed"; fi
   if [ -f "$f/coq/_CoqProject" ]; then ( cd "$f/coq" && coq_makefile -f _CoqProject -o Makefile >/dev/null 2>&1 && timeout 900 make -j"$(nproc)" ) || echo "WARN: coq build of family $name failed"; fi
   if [ -f "$f/runner/build.sh" ]; then sh "$f/runner/build.sh" || echo "WARN: runner build of family $name failed"; fi
-  if [ -f "$f/harness/Cargo.toml" ]; then
+  if [ -f "$f/harness/Cargo.toml" ] && [ ! -f "$f/harness/.built-by-check" ]; then
     cp "$REPO/Cargo.lock" "$f/harness/Cargo.lock"
     ( cd "$f/harness" && CARGO_TARGET_DIR="$(pwd)/../../../.cache/target_$name" cargo build --offline --quiet 2>/dev/null || CARGO_TARGET_DIR="$(pwd)/../../../.cache/target_$name" cargo build --offline ) || echo "WARN: harness build of family $name failed"
   fi
